@@ -26,10 +26,11 @@ theorem asUsizeSat_lt (v : Nat) : asUsizeSat v < U64 := by
   have hU := U64_val
   split <;> omega
 
-theorem copyToMem_eq (data : IState → List Nat) (s : IState) (h : MemOK s) (hw : ∀ w ∈ s.stack, w < W)
-    (hd : (data s).length ≤ Memory.ISIZE_MAX)
-    (hinv : ∀ a b : IState, a.input = b.input → a.code = b.code → a.origLen = b.origLen → data a = data b) :
-    (copyToMem data s).toDone =
+theorem copyToMem_eq (data : IState → List Nat) (guard : M Unit) (s : IState) (h : MemOK s)
+    (hw : ∀ w ∈ s.stack, w < W) (hd : (data s).length ≤ Memory.ISIZE_MAX)
+    (hinv : ∀ a b : IState, a.input = b.input → a.code = b.code → a.origLen = b.origLen → data a = data b)
+    (hguard : ∀ s' : IState, s'.isEof = s.isEof → guard s' = .ok () s') :
+    (copyToMem data guard s).toDone =
       match s.stack.reverse with
       | memOff :: dataOff :: len :: rest =>
         let s1 := { s with stack := rest.reverse }
@@ -56,7 +57,8 @@ theorem copyToMem_eq (data : IState → List Nat) (s : IState) (h : MemOK s) (hw
     simp only []
     have h1 : MemOK { s with stack := rest.reverse } := h.stack _
     have hd1 : data { s with stack := rest.reverse } = data s := hinv _ _ rfl rfl rfl
-    generalize ({ s with stack := rest.reverse } : IState) = s1 at h1 hd1 ⊢
+    have he1 : ({ s with stack := rest.reverse } : IState).isEof = s.isEof := rfl
+    generalize ({ s with stack := rest.reverse } : IState) = s1 at h1 hd1 he1 ⊢
     by_cases hl : U64 ≤ len
     · rw [bind_halt _ _ _ _ _ _ (asUsizeOrFail_fail len _ s1 hl hlen), if_pos hl]; rfl
     · rw [bind_ok _ _ _ _ _ (asUsizeOrFail_ok len _ s1 (by omega)), if_neg hl]
@@ -70,7 +72,8 @@ theorem copyToMem_eq (data : IState → List Nat) (s : IState) (h : MemOK s) (hw
         have h2 : MemOK (charge s1 (Spec.GasCalc.copyCost len)) := h1.charge _
         have hd2 : data (charge s1 (Spec.GasCalc.copyCost len)) = data s := by
           rw [← hd1]; exact hinv _ _ rfl rfl rfl
-        generalize charge s1 (Spec.GasCalc.copyCost len) = s2 at h2 hd2 ⊢
+        have he2 : (charge s1 (Spec.GasCalc.copyCost len)).isEof = s.isEof := he1
+        generalize charge s1 (Spec.GasCalc.copyCost len) = s2 at h2 hd2 he2 ⊢
         by_cases hz : len = 0
         · simp only [hz, if_true]; rfl
         · simp only [hz, if_false]
@@ -88,10 +91,12 @@ theorem copyToMem_eq (data : IState → List Nat) (s : IState) (h : MemOK s) (hw
               have hd3 : data (setMem (charge s2 (touchCost (memOf s2) memOff len))
                   (touch (memOf s2) memOff len)) = data s := by
                 rw [← hd2]; exact hinv _ _ rfl rfl rfl
+              have he3 : (setMem (charge s2 (touchCost (memOf s2) memOff len))
+                  (touch (memOf s2) memOff len)).isEof = s.isEof := he2
               generalize setMem (charge s2 (touchCost (memOf s2) memOff len))
-                (touch (memOf s2) memOff len) = s3 at h3 hm3 hd3 ⊢
+                (touch (memOf s2) memOff len) = s3 at h3 hm3 hd3 he3 ⊢
               have hget : getS s3 = .ok s3 s3 := rfl
-              rw [bind_ok _ _ _ _ _ hget, hd3,
+              rw [bind_ok _ _ _ _ _ (hguard s3 he3), bind_ok _ _ _ _ _ hget, hd3,
                 memSetData_eq s3 memOff (asUsizeSat dataOff) len (data s) h3.mem hd (asUsizeSat_lt _)
                   (by rw [hm3]; exact hcov),
                 paddedSlice_sat _ _ _ hd]
@@ -103,23 +108,27 @@ theorem step_calldatacopy (s : IState) (hcode : s.code[s.pc]? = some 0x37) (hwf 
   rw [hcode]
   have hdec : decode 0x37 = .calldatacopy := rfl
   simp only [hdec, execInstr, execPure]
-  show Outcome.pure (copyToMem (fun s => s.input) (adv s)).toDone = _
-  rw [copyToMem_eq (fun s => s.input) (adv s) hwf.memOK.adv hwf.words hwf.inputLen (fun a b h _ _ => h)]
+  show Outcome.pure (copyToMem (fun s => s.input) (pure ()) (adv s)).toDone = _
+  rw [copyToMem_eq (fun s => s.input) (pure ()) (adv s) hwf.memOK.adv hwf.words hwf.inputLen (fun a b h _ _ => h)
+    (fun _ _ => rfl)]
   rfl
 
-theorem step_codecopy (s : IState) (hcode : s.code[s.pc]? = some 0x39) (hwf : WFM s) :
+theorem step_codecopy (s : IState) (hcode : s.code[s.pc]? = some 0x39) (hwf : WFM s) (hleg : s.isEof = false) :
     step s = .pure (codecopyRule s) := by
   unfold step
   rw [hcode]
   have hdec : decode 0x39 = .codecopy := rfl
   simp only [hdec, execInstr, execPure]
-  show Outcome.pure (copyToMem (fun s => s.code.take s.origLen) (adv s)).toDone = _
+  show Outcome.pure (copyToMem (fun s => s.code.take s.origLen) assumeNotEof (adv s)).toDone = _
   have hl : ((adv s).code.take (adv s).origLen).length ≤ Memory.ISIZE_MAX := by
     have := hwf.codeLen
     show (s.code.take s.origLen).length ≤ _
     rw [List.length_take]; omega
-  rw [copyToMem_eq (fun s => s.code.take s.origLen) (adv s) hwf.memOK.adv hwf.words hl
-    (fun a b _ h1 h2 => by simp only [h1, h2])]
+  rw [copyToMem_eq (fun s => s.code.take s.origLen) assumeNotEof (adv s) hwf.memOK.adv hwf.words hl
+    (fun a b _ h1 h2 => by simp only [h1, h2])
+    (fun s' he => by
+      have : s'.isEof = false := he.trans hleg
+      simp [assumeNotEof, this])]
   rfl
 
 /-- the bounds check of RETURNDATACOPY on saturated 64-bit values is the check on the unbounded sum -/
